@@ -2,12 +2,16 @@ package main
 
 import (
 	"bytes"
+	"encoding/json"
 	"fmt"
+	"io/fs"
 	"os"
 	"os/exec"
 	"path/filepath"
+	"regexp"
 	"sort"
 	"strconv"
+	"strings"
 	"sync"
 )
 
@@ -115,4 +119,89 @@ func tail(b []byte, n int) string {
 		b = b[len(b)-n:]
 	}
 	return string(b)
+}
+
+// selftest seeded: sensitivity. Every kept breaking change under seeded/ is
+// applied to a scratch copy of /repo (never to /repo itself) and the owning
+// check, run against that copy with a small budget, must report a VIOLATION.
+func selftestSeeded(ids []string) int {
+	dir := filepath.Join(verifDir, "seeded")
+	ents, err := os.ReadDir(dir)
+	if err != nil {
+		fmt.Fprintln(os.Stderr, err)
+		return 2
+	}
+	want := map[string]bool{}
+	for _, id := range ids {
+		want[id] = true
+	}
+	exe, _ := os.Executable()
+	missed := 0
+	wall := os.Getenv("VERIF_SEEDED_WALL")
+	if wall == "" {
+		wall = "12"
+	}
+	clauseRe := regexp.MustCompile(`violation: clause=(\S+)`)
+	for _, e := range ents {
+		if !e.IsDir() || (len(want) > 0 && !want[e.Name()]) {
+			continue
+		}
+		var meta struct {
+			Property string `json:"property"`
+		}
+		b, err := os.ReadFile(filepath.Join(dir, e.Name(), "meta.json"))
+		if err != nil || json.Unmarshal(b, &meta) != nil || meta.Property == "" {
+			continue
+		}
+		tmp, err := os.MkdirTemp("", "verif-seeded-"+e.Name()+"-")
+		if err != nil {
+			fmt.Fprintln(os.Stderr, err)
+			return 2
+		}
+		err = copyTree("/repo", tmp, func(rel string, d fs.DirEntry) bool {
+			return d.IsDir() && (rel == ".git" || rel == "cmd")
+		})
+		if err == nil {
+			cmd := exec.Command("git", "apply", filepath.Join(dir, e.Name(), "patch.diff"))
+			cmd.Dir = tmp
+			var out []byte
+			out, err = cmd.CombinedOutput()
+			if err != nil {
+				err = fmt.Errorf("git apply: %v: %s", err, out)
+			}
+		}
+		if err != nil {
+			fmt.Printf("%-8s %s: cannot prepare: %v\n", e.Name(), meta.Property, err)
+			os.RemoveAll(tmp)
+			missed++
+			continue
+		}
+		cmd := exec.Command(exe, meta.Property, "--wall", wall)
+		cmd.Env = append(os.Environ(), "VERIF_REPO="+tmp, "VERIF_DIR="+verifDir, "VERIF_NO_EVIDENCE=1")
+		out, _ := cmd.CombinedOutput()
+		os.RemoveAll(tmp)
+		code := cmd.ProcessState.ExitCode()
+		clause := ""
+		if m := clauseRe.FindSubmatch(out); m != nil {
+			clause = string(m[1])
+		}
+		status := "caught"
+		if code != 1 || !strings.Contains(string(out), "VIOLATION property="+meta.Property) {
+			status = fmt.Sprintf("MISSED (exit %d)", code)
+			missed++
+		}
+		fmt.Printf("%-8s %s: %s %s\n", e.Name(), meta.Property, status, clause)
+	}
+	// replay files written by these runs describe patched copies, not /repo
+	if fs, _ := filepath.Glob(filepath.Join(verifDir, "replays", "*.json")); len(fs) > 0 && os.Getenv("VERIF_KEEP_REPLAYS") == "" {
+		for _, f := range fs {
+			os.Remove(f)
+		}
+	}
+	if missed > 0 {
+		fmt.Printf("selftest seeded: %d change(s) not caught\n", missed)
+		return 1
+	}
+	fmt.Println("selftest seeded: every kept change is caught")
+	return 0
 }
